@@ -118,6 +118,25 @@ pub fn apply_text(text: &str, f: &Fault) -> String {
             let b = (a + n).min(ls.len());
             format!("{}{}{}", ensure_nl(&ls[..a].concat()), ensure_nl(ins), ls[b..].concat())
         }
+        Fault::ReplaceRange { at, len, text: ins, .. } => {
+            let a = byte_at(text, *at);
+            let b = byte_at(text, at + len);
+            format!("{}{}{}", &text[..a], ins, &text[b..])
+        }
+        Fault::Reflow { positions, indent, .. } => {
+            let mut out = String::with_capacity(text.len() + positions.len() * (indent + 1));
+            for (i, ch) in text.chars().enumerate() {
+                if ch == ' ' && positions.contains(&i) {
+                    out.push('\n');
+                    for _ in 0..*indent {
+                        out.push(' ');
+                    }
+                } else {
+                    out.push(ch);
+                }
+            }
+            out
+        }
         Fault::Empty { .. } => String::new(),
         Fault::Crlf { .. } => text.replace("\r\n", "\n").replace('\n', "\r\n"),
         Fault::Remove { .. } | Fault::IoErr { .. } => text.to_string(),
